@@ -12,7 +12,7 @@ TREES = ['maptree', 'settree', 'keytree']
 LISTS = ['maplist', 'setlist', 'keylist']
 ALL = TREES + LISTS + ['seg']
 DEAD = ['PANIC', 'CRASH', 'HANG']          # the operation did not return normally
-MODEL = ['MODELERR', 'RUNNER']
+MODEL = ['MODELERR', 'RUNNER', 'EXTRACT']
 
 AXIOM_ALLOW = set()   # the development is axiom-free; any stdlib axiom needed would be named here
 
